@@ -20,6 +20,9 @@ CLAIMED = {
     "C15": ("Lean 4 theorems by induction over the fold of the EdgeLoader row callback (insertion-ordered association lists per vertex) + differential run of the real Graph::from_files on CSV files written by the harness (plain and gzip) + direct oracle recomputing adjacency from the raw rows",
             "Proof, partial: for every edge/vertex list in the documented format (ids are row numbers, endpoints are listed vertices) and explicit or scanned counts, the model of graph_from_files yields a graph whose get_edge / get_vertex / out_edges / in_edges (in file order, any degree) / edge_triplet / incident_* are exactly the listed rows, whose forward and reverse adjacency are permutations of the same edge ids, and per-edge tables are aligned by row (Lean theorems, all inputs, no bound on sizes or degrees); the loader's error kinds are theorems too. Partial in two senses: (1) file decoding - csv parsing, gzip, line counting - is not modelled and is covered only by the differential run (the model takes the decoded rows, which rows fail to decode, and the text line count as data), and the adjacency container is modelled abstractly as an insertion-ordered association list (its refinement is C11's); (2) for files outside that format the full statement is false of the code and machine-checked counterexamples are given (ids that are not row numbers, endpoints without a vertex row and a too-small declared vertex count are accepted silently; the missing_vertices set is collected and dropped).",
             "§5 C15"),
+    "C07": ("Lean 4 theorems about the executable cost model for every cost-model value (any feature count, weights, nested rates, both aggregations, any state pair) over any linearly ordered field + bit-exact correspondence run of the real CostModel (built by CostModel::new over a real StateModel) against the model at IEEE doubles + direct oracle on the real outputs",
+            "Proof: strict positivity of traversal_cost / access_cost and of EdgeTraversal::total_cost (= access + (total - access)), non-negativity of cost_estimate, exact return/none conditions, the sum formula (weights x rated state changes + per-edge / per-turn surcharges; floor exactly when <= 0), linearity in the weights, zero-weight features ignored (and removable under sum), the product formula under mul aggregation, and CostModel::new rejecting exactly zero-sum weights are Lean theorems for all inputs; the floor constant is regenerated from the source each run. The hand-written model is tied to the code by a bit-exact differential run over random configurations (every rate constructor, Combined nested to depth 3, both aggregations, zero/negative/absent weights, all delta signs, lookup hits and misses, short state vectors). f64 rounding is outside the theorems: the oracle reports the one place where it breaks the property (a large access share absorbs the floored total in access + (total - access)).",
+            "§5 C07"),
 }
 
 NOT_YET = {
